@@ -86,6 +86,13 @@ def bad_series(y, fault):
         idx = list(y.index)
         idx[0], idx[-1] = idx[-1], idx[0]
         return pd.Series(y.to_numpy(), index=pd.Index(idx, dtype="int64"))
+    if fault == "unsorted_middle":
+        # two neighbouring time points in the middle swapped: first, last and length are fine
+        idx = list(y.index)
+        m = max(0, len(idx) // 2 - 1)
+        if len(idx) >= 2:
+            idx[m], idx[m + 1] = idx[m + 1], idx[m]
+        return pd.Series(y.to_numpy(), index=pd.Index(idx, dtype="int64"))
     if fault == "reversed_range":
         return pd.Series(y.to_numpy(), index=pd.RangeIndex(int(y.index[-1]), int(y.index[0]) - 1, -1))
     if fault == "empty":
@@ -161,6 +168,30 @@ def p_series_fault(c):
         out += expect_accepted(sut(FORECASTERS[name]().fit(y.copy(), None, steps).update, y_new.copy()), "update:%s" % name)
         if fault != "empty":  # an empty update is documented as a no-op
             out += expect_rejected(sut(f.update, bad_series(y_new, fault)), "%s_target:update:%s" % (fault, name), None)
+    elif c["where"] == "update_predict":
+        f = FORECASTERS[name]().fit(y.copy(), None, steps)
+        y_new = gen.build_series([5.0 + 0.75 * j for j in range(steps[-1] + 4)], int(y.index[-1]) + 1, c["index_kind"])
+        cvu = SlidingWindowSplitter(fh=steps, window_length=1)
+        if name in FH_DEPENDENT:
+            return out
+        out += expect_accepted(sut(FORECASTERS[name]().fit(y.copy(), None, steps).update_predict, y_new.copy(), cvu), "update_predict:%s" % name)
+        if fault != "empty":
+            out += expect_rejected(sut(f.update_predict, bad_series(y_new, fault), cvu), "%s_target:update_predict:%s" % (fault, name), None)
+    elif c["where"] == "update_predict_single":
+        f = FORECASTERS[name]().fit(y.copy(), None, steps)
+        y_new = gen.build_series([5.0, 6.5, 7.25], int(y.index[-1]) + 1, c["index_kind"])
+        out += expect_accepted(sut(FORECASTERS[name]().fit(y.copy(), None, steps).update_predict_single, y_new.copy(), steps), "update_predict_single:%s" % name)
+        if fault != "empty":
+            out += expect_rejected(sut(f.update_predict_single, bad_series(y_new, fault), steps), "%s_target:update_predict_single:%s" % (fault, name), None)
+    elif c["where"] == "splitter":
+        if fault in ("unsorted", "unsorted_middle", "reversed_range"):
+            yb = bad_series(y, fault)
+            for nm, mk in (("sliding", lambda: SlidingWindowSplitter(fh=steps, window_length=3)),
+                           ("expanding", lambda: ExpandingWindowSplitter(fh=steps, initial_window=3)),
+                           ("single", lambda: SingleWindowSplitter(fh=steps)),
+                           ("cutoff", lambda: CutoffSplitter(np.array([4]), fh=steps, window_length=3))):
+                out += expect_accepted(sut(lambda: list(mk().split(y))), "%s.split" % nm)
+                out += expect_rejected(sut(lambda: list(mk().split(yb))), "%s_target:%s.split" % (fault, nm))
     elif c["where"] == "evaluate":
         cv = SlidingWindowSplitter(fh=1, window_length=8)
         out += expect_accepted(sut(evaluate, NaiveForecaster(), cv, y.copy()), "evaluate")
@@ -184,7 +215,23 @@ def p_x_index(c):
     if isinstance(r, Raised) and r.is_a(NotImplementedError):
         return []  # this forecaster documents that it does not take X at all
     out += expect_accepted(r, "fit_with_X:%s" % name)
-    out += expect_rejected(sut(f.fit, y.copy(), Xbad, c["fh"]), "X_index_differs:fit:%s" % name, f)
+    variant = c.get("x_variant", "fit")
+    if variant == "fit":
+        out += expect_rejected(sut(f.fit, y.copy(), Xbad, c["fh"]), "X_index_differs:fit:%s" % name, f)
+    elif variant == "fit_shorter":
+        out += expect_rejected(sut(f.fit, y.copy(), X.iloc[:-1].copy(), c["fh"]), "X_shorter_than_y:fit:%s" % name, f)
+    elif variant == "update":
+        g = FORECASTERS[name]().fit(y.copy(), X.copy(), c["fh"])
+        y_new = gen.build_series([5.0, 6.5, 7.25], int(y.index[-1]) + 1, c["index_kind"])
+        X_new = pd.DataFrame({"a": [1.0, 2.0, 3.0]}, index=y_new.index)
+        X_off = pd.DataFrame({"a": [1.0, 2.0, 3.0]}, index=gen.int_index(int(y_new.index[0]) + 1, 3, c["index_kind"]))
+        ok = sut(FORECASTERS[name]().fit(y.copy(), X.copy(), c["fh"]).update, y_new.copy(), X_new.copy())
+        out += expect_accepted(ok, "update_with_X:%s" % name)
+        out += expect_rejected(sut(g.update, y_new.copy(), X_off), "X_index_differs:update:%s" % name)
+    else:
+        cv = SlidingWindowSplitter(fh=1, window_length=8)
+        out += expect_accepted(sut(evaluate, FORECASTERS[name](), cv, y.copy(), X.copy()), "evaluate_with_X:%s" % name)
+        out += expect_rejected(sut(evaluate, FORECASTERS[name](), cv, y.copy(), Xbad), "X_index_differs:evaluate:%s" % name)
     return out
 
 
@@ -239,11 +286,25 @@ def p_fh_differs(c):
     name = c["forecaster"]  # fh-dependent only
     y = mk_y(c)
     steps = c["fh"]
-    other = [s + 1 for s in steps] if c["variant"] == 0 else steps + [steps[-1] + 1]
+    v = c["variant"]
+    if v == 0:
+        other = [s + 1 for s in steps]
+    elif v == 1:
+        other = steps + [steps[-1] + 1]
+    elif v == 2:
+        other = steps[:-1] if len(steps) > 1 else [steps[0] + 2]  # a strict prefix
+    elif v == 3:
+        other = steps[1:] if len(steps) > 1 else [steps[0] + 1]  # a strict suffix
+    else:
+        other = [steps[-1] + 3]
     f = FORECASTERS[name]().fit(y.copy(), None, steps)
     out = expect_accepted(sut(f.predict, list(steps)), "predict_same_fh:%s" % name)
     out += expect_accepted(sut(f.predict), "predict_no_fh:%s" % name)
-    out += expect_rejected(sut(f.predict, other), "horizon_differs_from_fit:%s" % name)
+    if c.get("at", "predict") == "predict":
+        out += expect_rejected(sut(f.predict, other), "horizon_differs_from_fit:%s" % name)
+    else:
+        y_new = gen.build_series([5.0, 6.5, 7.25], int(y.index[-1]) + 1, c["index_kind"])
+        out += expect_rejected(sut(f.update_predict_single, y_new, other), "horizon_differs_from_fit:update_predict_single:%s" % name)
     return out
 
 
@@ -417,11 +478,12 @@ def cases(draw, pair):
          "start": draw(gen.index_start), "index_kind": draw(gen.index_kind),
          "fh": draw(gen.fh_steps(max_step=4, max_size=3))}
     if pair == "series_fault":
-        c["where"] = draw(st.sampled_from(["fit", "fit", "update", "evaluate", "tuner"]))
+        c["where"] = draw(st.sampled_from(["fit", "fit", "update", "evaluate", "tuner", "update_predict", "update_predict_single", "splitter"]))
         c["forecaster"] = draw(st.sampled_from(sorted(FORECASTERS)))
-        c["fault"] = draw(st.sampled_from(["unsorted", "reversed_range", "empty", "dataframe", "ndarray"]))
+        c["fault"] = draw(st.sampled_from(["unsorted", "unsorted_middle", "reversed_range", "empty", "dataframe", "ndarray"]))
     elif pair == "x_index":
         c["forecaster"] = draw(st.sampled_from(["naive", "recursive", "direct", "multioutput", "ensemble", "multiplex", "expsmooth"]))
+        c["x_variant"] = draw(st.sampled_from(["fit", "fit", "fit_shorter", "update", "evaluate"]))
     elif pair == "fh_fault":
         c["where"] = draw(st.sampled_from(["constructor", "fit", "predict", "splitter", "tts"]))
         c["forecaster"] = draw(st.sampled_from(sorted(FORECASTERS)))
@@ -431,7 +493,8 @@ def cases(draw, pair):
         c["forecaster"] = draw(st.sampled_from(sorted(FORECASTERS)))
     elif pair == "fh_differs":
         c["forecaster"] = draw(st.sampled_from(FH_DEPENDENT))
-        c["variant"] = draw(st.integers(0, 1))
+        c["variant"] = draw(st.integers(0, 4))
+        c["at"] = draw(st.sampled_from(["predict", "predict", "update_predict_single"]))
     elif pair == "bad_int_param":
         c["where"] = draw(st.sampled_from(["sliding", "expanding", "cutoff", "naive", "reduce", "deseasonalizer"]))
         c["param"] = draw(st.sampled_from(["window_length", "step_length", "sp"]))
